@@ -169,6 +169,39 @@ func searchIndex(p *binary.BinaryProtocol, idx int, elementWireType proto.WireTy
 	return p.Read, errNotFound
 }
 
+// skipList moves p from the tag of the first element of a LIST Node to its end and counts the elements.
+// Unlike p.SkipAllElements it knows the wire type of the elements, so it can count fixed-width packed elements too
+func skipList(p *binary.BinaryProtocol, desc *proto.TypeDescriptor) (int, error) {
+	_, wt, _, err := p.ConsumeTagWithoutMove()
+	if err != nil {
+		return -1, err
+	}
+	if !desc.IsPacked() || wt != proto.BytesType {
+		return p.SkipAllElements(desc.BaseId(), false)
+	}
+	// packed Type : [tag][length][value][value][value]....
+	size := 0
+	elementWireType := desc.Elem().WireType()
+	if _, _, _, err := p.ConsumeTag(); err != nil {
+		return -1, err
+	}
+	length, err := p.ReadLength()
+	if err != nil {
+		return -1, err
+	}
+	end := p.Read + length
+	if length < 0 || end > len(p.Buf) {
+		return -1, errNode(meta.ErrRead, "skipList: packed list exceeds the buffer.", nil)
+	}
+	for p.Read < end {
+		if err := p.Skip(elementWireType, false); err != nil {
+			return -1, errNode(meta.ErrRead, "skipList: skip packed list element error.", err)
+		}
+		size++
+	}
+	return size, nil
+}
+
 // searchIntKey in MAP Node
 // if key is found, return the value tag position, otherwise return the end of p.Buf
 func searchIntKey(p *binary.BinaryProtocol, key int, keyType proto.Type, mapFieldNumber proto.FieldNumber) (int, error) {
@@ -436,7 +469,7 @@ func (self Value) getByPath(pathes ...Path) (Value, []int) {
 		}
 	case proto.LIST:
 		et = desc.Elem().Type()
-		if s, err := p.SkipAllElements(desc.BaseId(), desc.IsPacked()); err != nil {
+		if s, err := skipList(&p, desc); err != nil {
 			return errValueOf("invalid list node.", err), address
 		} else {
 			size = s
